@@ -5,12 +5,14 @@ package binary
 
 import (
 	"bytes"
+	"io"
 
 	"github.com/tetratelabs/wazero/api"
 	"github.com/tetratelabs/wazero/internal/wasm"
 )
 
 var (
+	_ io.Reader
 	_ *bytes.Reader
 	_ api.CoreFeatures
 	_ *wasm.Code
@@ -21,6 +23,10 @@ func readerOK(r *bytes.Reader) bool {
 	return r != nil && 0 <= verif_field_int(r, "i") && verif_field_int(r, "i") <= verif_field_len(r, "s")
 }
 
+// inputLen / consumed: the size of the input and the read position (never moves backwards across a decoder).
+func inputLen(r *bytes.Reader) int { return verif_field_len(r, "s") }
+func consumed(r *bytes.Reader) int { return verif_field_int(r, "i") }
+
 // remaining: bytes of input not yet consumed.
 func remaining(r *bytes.Reader) uint64 { return uint64(verif_field_len(r, "s") - verif_field_int(r, "i")) }
 
@@ -30,182 +36,367 @@ func remaining(r *bytes.Reader) uint64 { return uint64(verif_field_len(r, "s") -
 // tree are claimed individually (/verif/baseline/C03.json).
 //@ prop C03
 
+// asReader: the *bytes.Reader behind an io.Reader (every reader this package passes on is one).
+func asReader(r io.Reader) *bytes.Reader { br, _ := r.(*bytes.Reader); return br }
+
+// Standard library, trusted: io.ReadFull / io.CopyN on a *bytes.Reader only move its read index forwards
+// (and write the destination buffer); a nil error means the whole count was delivered.
+//@ func io.ReadFull(r io.Reader, buf []byte) (n int, err error)
+//@   trusted
+//@   requires asReader(r) != nil && readerOK(asReader(r))
+//@   ensures[reader] readerOK(asReader(r)) && inputLen(asReader(r)) == old(inputLen(asReader(r))) && consumed(asReader(r)) >= old(consumed(asReader(r)))
+//@   ensures[full] err == nil ==> n == len(buf) && consumed(asReader(r)) == old(consumed(asReader(r))) + len(buf)
+//@   modifies obj(asReader(r)), elems(buf)
+
+//@ func (r *bytes.Reader) Read(b []byte) (n int, err error)
+//@   trusted
+//@   requires readerOK(r)
+//@   ensures[reader] readerOK(r) && inputLen(r) == old(inputLen(r))
+//@   ensures[step] n >= 0 && n <= len(b) && consumed(r) == old(consumed(r)) + n && (err != nil ==> n == 0)
+//@   modifies obj(r), elems(b)
+
+//@ func (r *bytes.Reader) ReadAt(b []byte, off int64) (n int, err error)
+//@   trusted
+//@   requires readerOK(r)
+//@   ensures[count] n >= 0 && n <= len(b)
+//@   modifies elems(b)
+
+//@ func io.CopyN(dst io.Writer, src io.Reader, n int64) (written int64, err error)
+//@   trusted
+//@   requires asReader(src) != nil && readerOK(asReader(src))
+//@   ensures[reader] readerOK(asReader(src)) && inputLen(asReader(src)) == old(inputLen(asReader(src))) && consumed(asReader(src)) >= old(consumed(asReader(src)))
+//@   modifies obj(asReader(src))
+
+//@ func readBytes(r *bytes.Reader, size uint32) ([]byte, error)
+//@   requires readerOK(r)
+//@   ensures[reader-ok] readerOK(r)
+//@   ensures[same-input] inputLen(r) == old(inputLen(r))
+//@   ensures[forward] consumed(r) >= old(consumed(r))
+//@   ensures[exact] r1 == nil ==> len(r0) == int(size)
+//@   sweep
+//@   alloc-bound remaining(r) + 16
+
 //@ func decodeCode(r *bytes.Reader, codeSectionStart uint64, ret *wasm.Code) (err error)
 //@   requires readerOK(r)
+//@   ensures[reader-ok] readerOK(r)
+//@   ensures[same-input] inputLen(r) == old(inputLen(r))
+//@   ensures[forward] consumed(r) >= old(consumed(r))
 //@   sweep
-//@   alloc-bound 64*remaining(r) + 4096
+//@   alloc-bound 256*remaining(r) + 4096
+//@   loop 0 (bytesRead uint64)
+//@     invariant readerOK(r) && inputLen(r) == old[int](inputLen(r)) && int(bytesRead) >= 0 && int(bytesRead) <= consumed(r) - old[int](consumed(r))
+//@   loop 1 ()
+//@     invariant readerOK(r) && inputLen(r) == old[int](inputLen(r)) && consumed(r) >= old[int](consumed(r))
 
 //@ func decodeConstantExpression(r *bytes.Reader, enabledFeatures api.CoreFeatures, ret *wasm.ConstantExpression) error
-//@   requires readerOK(r)
+//@   requires readerOK(r) && ret != nil
+//@   ensures[data] r0 == nil ==> len(ret.Data) >= 1
+//@   ensures[reader-ok] readerOK(r)
+//@   ensures[same-input] inputLen(r) == old(inputLen(r))
+//@   ensures[forward] consumed(r) >= old(consumed(r))
 //@   sweep
-//@   alloc-bound 64*remaining(r) + 4096
+//@   alloc-bound 256*remaining(r) + 4096
 
 //@ func decodeCustomSection(r *bytes.Reader, name string, limit uint64) (result *wasm.CustomSection, err error)
 //@   requires readerOK(r)
+//@   ensures[reader-ok] readerOK(r)
+//@   ensures[same-input] inputLen(r) == old(inputLen(r))
+//@   ensures[forward] consumed(r) >= old(consumed(r))
 //@   sweep
-//@   alloc-bound 64*remaining(r) + 4096
+//@   alloc-bound 256*remaining(r) + 4096
 
 //@ func decodeDataSegment(r *bytes.Reader, enabledFeatures api.CoreFeatures, ret *wasm.DataSegment) (err error)
 //@   requires readerOK(r)
+//@   ensures[reader-ok] readerOK(r)
+//@   ensures[same-input] inputLen(r) == old(inputLen(r))
+//@   ensures[forward] consumed(r) >= old(consumed(r))
 //@   sweep
-//@   alloc-bound 64*remaining(r) + 4096
+//@   alloc-bound 256*remaining(r) + 4096
 
 //@ func ensureElementKindFuncRef(r *bytes.Reader) error
 //@   requires readerOK(r)
+//@   ensures[reader-ok] readerOK(r)
+//@   ensures[same-input] inputLen(r) == old(inputLen(r))
+//@   ensures[forward] consumed(r) >= old(consumed(r))
 //@   sweep
-//@   alloc-bound 64*remaining(r) + 4096
+//@   alloc-bound 256*remaining(r) + 4096
 
 //@ func decodeElementInitValueVector(r *bytes.Reader) ([]wasm.Index, error)
 //@   requires readerOK(r)
+//@   ensures[reader-ok] readerOK(r)
+//@   ensures[same-input] inputLen(r) == old(inputLen(r))
+//@   ensures[forward] consumed(r) >= old(consumed(r))
 //@   sweep
-//@   alloc-bound 64*remaining(r) + 4096
+//@   alloc-bound 256*remaining(r) + 4096
+//@   loop 0 ()
+//@     invariant readerOK(r) && inputLen(r) == old[int](inputLen(r)) && consumed(r) >= old[int](consumed(r))
 
 //@ func decodeElementConstExprVector(r *bytes.Reader, elemType wasm.RefType, enabledFeatures api.CoreFeatures) ([]wasm.Index, error)
 //@   requires readerOK(r)
+//@   ensures[reader-ok] readerOK(r)
+//@   ensures[same-input] inputLen(r) == old(inputLen(r))
+//@   ensures[forward] consumed(r) >= old(consumed(r))
 //@   sweep
-//@   alloc-bound 64*remaining(r) + 4096
+//@   alloc-bound 256*remaining(r) + 4096
+//@   loop 0 (vec []wasm.Index, i uint32)
+//@     invariant len(vec) == int(i) && readerOK(r) && inputLen(r) == old[int](inputLen(r)) && consumed(r) >= old[int](consumed(r))
 
 //@ func decodeElementRefType(r *bytes.Reader) (ret wasm.RefType, err error)
 //@   requires readerOK(r)
+//@   ensures[reader-ok] readerOK(r)
+//@   ensures[same-input] inputLen(r) == old(inputLen(r))
+//@   ensures[forward] consumed(r) >= old(consumed(r))
 //@   sweep
-//@   alloc-bound 64*remaining(r) + 4096
+//@   alloc-bound 256*remaining(r) + 4096
 
 //@ func decodeElementSegment(r *bytes.Reader, enabledFeatures api.CoreFeatures, ret *wasm.ElementSegment) error
 //@   requires readerOK(r)
+//@   ensures[reader-ok] readerOK(r)
+//@   ensures[same-input] inputLen(r) == old(inputLen(r))
+//@   ensures[forward] consumed(r) >= old(consumed(r))
 //@   sweep
-//@   alloc-bound 64*remaining(r) + 4096
+//@   alloc-bound 256*remaining(r) + 4096
 
 //@ func decodeExport(r *bytes.Reader, ret *wasm.Export) (err error)
 //@   requires readerOK(r)
+//@   ensures[reader-ok] readerOK(r)
+//@   ensures[same-input] inputLen(r) == old(inputLen(r))
+//@   ensures[forward] consumed(r) >= old(consumed(r))
 //@   sweep
-//@   alloc-bound 64*remaining(r) + 4096
+//@   alloc-bound 256*remaining(r) + 4096
 
 //@ func decodeFunctionType(enabledFeatures api.CoreFeatures, r *bytes.Reader, ret *wasm.FunctionType) (err error)
 //@   requires readerOK(r)
+//@   ensures[reader-ok] readerOK(r)
+//@   ensures[same-input] inputLen(r) == old(inputLen(r))
+//@   ensures[forward] consumed(r) >= old(consumed(r))
 //@   sweep
-//@   alloc-bound 64*remaining(r) + 4096
+//@   alloc-bound 256*remaining(r) + 4096
 
 //@ func decodeGlobal(r *bytes.Reader, enabledFeatures api.CoreFeatures, ret *wasm.Global) (err error)
 //@   requires readerOK(r)
+//@   ensures[reader-ok] readerOK(r)
+//@   ensures[same-input] inputLen(r) == old(inputLen(r))
+//@   ensures[forward] consumed(r) >= old(consumed(r))
 //@   sweep
-//@   alloc-bound 64*remaining(r) + 4096
+//@   alloc-bound 256*remaining(r) + 4096
 
 //@ func decodeGlobalType(r *bytes.Reader) (wasm.GlobalType, error)
 //@   requires readerOK(r)
+//@   ensures[reader-ok] readerOK(r)
+//@   ensures[same-input] inputLen(r) == old(inputLen(r))
+//@   ensures[forward] consumed(r) >= old(consumed(r))
 //@   sweep
-//@   alloc-bound 64*remaining(r) + 4096
+//@   alloc-bound 256*remaining(r) + 4096
 
 //@ func decodeImport(r *bytes.Reader, idx uint32, memorySizer memorySizer, memoryLimitPages uint32, enabledFeatures api.CoreFeatures, ret *wasm.Import) (err error)
-//@   requires readerOK(r)
+//@   requires readerOK(r) && memorySizer != nil
+//@   ensures[reader-ok] readerOK(r)
+//@   ensures[same-input] inputLen(r) == old(inputLen(r))
+//@   ensures[forward] consumed(r) >= old(consumed(r))
 //@   sweep
-//@   alloc-bound 64*remaining(r) + 4096
+//@   alloc-bound 256*remaining(r) + 4096
 
 //@ func decodeLimitsType(r *bytes.Reader) (min uint32, max *uint32, shared bool, err error)
 //@   requires readerOK(r)
+//@   ensures[reader-ok] readerOK(r)
+//@   ensures[same-input] inputLen(r) == old(inputLen(r))
+//@   ensures[forward] consumed(r) >= old(consumed(r))
 //@   sweep
-//@   alloc-bound 64*remaining(r) + 4096
+//@   alloc-bound 256*remaining(r) + 4096
 
 //@ func decodeMemory(r *bytes.Reader, enabledFeatures api.CoreFeatures, memorySizer func(minPages uint32, maxPages *uint32) (min, capacity, max uint32), memoryLimitPages uint32) (*wasm.Memory, error)
-//@   requires readerOK(r)
+//@   requires readerOK(r) && memorySizer != nil
+//@   ensures[reader-ok] readerOK(r)
+//@   ensures[same-input] inputLen(r) == old(inputLen(r))
+//@   ensures[forward] consumed(r) >= old(consumed(r))
 //@   sweep
-//@   alloc-bound 64*remaining(r) + 4096
+//@   alloc-bound 256*remaining(r) + 4096
+//@   callees-preserve *r
 
 //@ func decodeNameSection(r *bytes.Reader, limit uint64) (result *wasm.NameSection, err error)
 //@   requires readerOK(r)
+//@   ensures[reader-ok] readerOK(r)
+//@   ensures[same-input] inputLen(r) == old(inputLen(r))
+//@   ensures[forward] consumed(r) >= old(consumed(r))
 //@   sweep
-//@   alloc-bound 64*remaining(r) + 4096
+//@   alloc-bound 256*remaining(r) + 4096
+//@   loop 0 ()
+//@     invariant readerOK(r) && inputLen(r) == old[int](inputLen(r)) && consumed(r) >= old[int](consumed(r))
 
 //@ func decodeFunctionNames(r *bytes.Reader) (wasm.NameMap, error)
 //@   requires readerOK(r)
+//@   ensures[reader-ok] readerOK(r)
+//@   ensures[same-input] inputLen(r) == old(inputLen(r))
+//@   ensures[forward] consumed(r) >= old(consumed(r))
 //@   sweep
-//@   alloc-bound 64*remaining(r) + 4096
+//@   alloc-bound 256*remaining(r) + 4096
+//@   loop 0 ()
+//@     invariant readerOK(r) && inputLen(r) == old[int](inputLen(r)) && consumed(r) >= old[int](consumed(r))
 
 //@ func decodeLocalNames(r *bytes.Reader) (wasm.IndirectNameMap, error)
 //@   requires readerOK(r)
+//@   ensures[reader-ok] readerOK(r)
+//@   ensures[same-input] inputLen(r) == old(inputLen(r))
+//@   ensures[forward] consumed(r) >= old(consumed(r))
 //@   sweep
-//@   alloc-bound 64*remaining(r) + 4096
+//@   alloc-bound 256*remaining(r) + 4096
+//@   loop 0 ()
+//@     invariant readerOK(r) && inputLen(r) == old[int](inputLen(r)) && consumed(r) >= old[int](consumed(r))
+//@   loop 1 ()
+//@     invariant readerOK(r) && inputLen(r) == old[int](inputLen(r)) && consumed(r) >= old[int](consumed(r))
 
 //@ func decodeFunctionIndex(r *bytes.Reader, subsectionID uint8) (uint32, error)
 //@   requires readerOK(r)
+//@   ensures[reader-ok] readerOK(r)
+//@   ensures[same-input] inputLen(r) == old(inputLen(r))
+//@   ensures[forward] consumed(r) >= old(consumed(r))
 //@   sweep
-//@   alloc-bound 64*remaining(r) + 4096
+//@   alloc-bound 256*remaining(r) + 4096
 
 //@ func decodeFunctionCount(r *bytes.Reader, subsectionID uint8) (uint32, error)
 //@   requires readerOK(r)
+//@   ensures[reader-ok] readerOK(r)
+//@   ensures[same-input] inputLen(r) == old(inputLen(r))
+//@   ensures[forward] consumed(r) >= old(consumed(r))
 //@   sweep
-//@   alloc-bound 64*remaining(r) + 4096
+//@   alloc-bound 256*remaining(r) + 4096
 
 //@ func decodeTypeSection(enabledFeatures api.CoreFeatures, r *bytes.Reader) ([]wasm.FunctionType, error)
 //@   requires readerOK(r)
+//@   ensures[reader-ok] readerOK(r)
+//@   ensures[same-input] inputLen(r) == old(inputLen(r))
+//@   ensures[forward] consumed(r) >= old(consumed(r))
 //@   sweep
-//@   alloc-bound 64*remaining(r) + 4096
+//@   alloc-bound 256*remaining(r) + 4096
+//@   loop 0 (result []wasm.FunctionType, i uint32)
+//@     invariant len(result) == int(i) && readerOK(r) && inputLen(r) == old[int](inputLen(r)) && consumed(r) >= old[int](consumed(r))
 
 //@ func decodeImportSection(r *bytes.Reader, memorySizer memorySizer, memoryLimitPages uint32, enabledFeatures api.CoreFeatures) (result []wasm.Import, perModule map[string][]*wasm.Import, funcCount, globalCount, memoryCount, tableCount wasm.Index, err error)
-//@   requires readerOK(r)
+//@   requires readerOK(r) && memorySizer != nil
+//@   ensures[reader-ok] readerOK(r)
+//@   ensures[same-input] inputLen(r) == old(inputLen(r))
+//@   ensures[forward] consumed(r) >= old(consumed(r))
 //@   sweep
-//@   alloc-bound 64*remaining(r) + 4096
+//@   alloc-bound 256*remaining(r) + 4096
+//@   loop 0 (i uint32)
+//@     invariant len(result) == int(i) && readerOK(r) && inputLen(r) == old[int](inputLen(r)) && consumed(r) >= old[int](consumed(r))
 
 //@ func decodeFunctionSection(r *bytes.Reader) ([]uint32, error)
 //@   requires readerOK(r)
+//@   ensures[reader-ok] readerOK(r)
+//@   ensures[same-input] inputLen(r) == old(inputLen(r))
+//@   ensures[forward] consumed(r) >= old(consumed(r))
 //@   sweep
-//@   alloc-bound 64*remaining(r) + 4096
+//@   alloc-bound 256*remaining(r) + 4096
+//@   loop 0 (result []uint32, i uint32)
+//@     invariant len(result) == int(i) && readerOK(r) && inputLen(r) == old[int](inputLen(r)) && consumed(r) >= old[int](consumed(r))
 
 //@ func decodeTableSection(r *bytes.Reader, enabledFeatures api.CoreFeatures) ([]wasm.Table, error)
 //@   requires readerOK(r)
+//@   ensures[reader-ok] readerOK(r)
+//@   ensures[same-input] inputLen(r) == old(inputLen(r))
+//@   ensures[forward] consumed(r) >= old(consumed(r))
 //@   sweep
-//@   alloc-bound 64*remaining(r) + 4096
+//@   alloc-bound 256*remaining(r) + 4096
+//@   loop 0 (ret []wasm.Table, i uint32)
+//@     invariant len(ret) == int(i) && readerOK(r) && inputLen(r) == old[int](inputLen(r)) && consumed(r) >= old[int](consumed(r))
 
 //@ func decodeMemorySection(r *bytes.Reader, enabledFeatures api.CoreFeatures, memorySizer memorySizer, memoryLimitPages uint32) (*wasm.Memory, error)
-//@   requires readerOK(r)
+//@   requires readerOK(r) && memorySizer != nil
+//@   ensures[reader-ok] readerOK(r)
+//@   ensures[same-input] inputLen(r) == old(inputLen(r))
+//@   ensures[forward] consumed(r) >= old(consumed(r))
 //@   sweep
-//@   alloc-bound 64*remaining(r) + 4096
+//@   alloc-bound 256*remaining(r) + 4096
 
 //@ func decodeGlobalSection(r *bytes.Reader, enabledFeatures api.CoreFeatures) ([]wasm.Global, error)
 //@   requires readerOK(r)
+//@   ensures[reader-ok] readerOK(r)
+//@   ensures[same-input] inputLen(r) == old(inputLen(r))
+//@   ensures[forward] consumed(r) >= old(consumed(r))
 //@   sweep
-//@   alloc-bound 64*remaining(r) + 4096
+//@   alloc-bound 256*remaining(r) + 4096
+//@   loop 0 (result []wasm.Global, i uint32)
+//@     invariant len(result) == int(i) && readerOK(r) && inputLen(r) == old[int](inputLen(r)) && consumed(r) >= old[int](consumed(r))
 
 //@ func decodeExportSection(r *bytes.Reader) ([]wasm.Export, map[string]*wasm.Export, error)
 //@   requires readerOK(r)
+//@   ensures[reader-ok] readerOK(r)
+//@   ensures[same-input] inputLen(r) == old(inputLen(r))
+//@   ensures[forward] consumed(r) >= old(consumed(r))
 //@   sweep
-//@   alloc-bound 64*remaining(r) + 4096
+//@   alloc-bound 256*remaining(r) + 4096
+//@   loop 0 (exportSection []wasm.Export, i uint32)
+//@     invariant len(exportSection) == int(i) && readerOK(r) && inputLen(r) == old[int](inputLen(r)) && consumed(r) >= old[int](consumed(r))
 
 //@ func decodeStartSection(r *bytes.Reader) (*wasm.Index, error)
 //@   requires readerOK(r)
+//@   ensures[reader-ok] readerOK(r)
+//@   ensures[same-input] inputLen(r) == old(inputLen(r))
+//@   ensures[forward] consumed(r) >= old(consumed(r))
 //@   sweep
-//@   alloc-bound 64*remaining(r) + 4096
+//@   alloc-bound 256*remaining(r) + 4096
 
 //@ func decodeElementSection(r *bytes.Reader, enabledFeatures api.CoreFeatures) ([]wasm.ElementSegment, error)
 //@   requires readerOK(r)
+//@   ensures[reader-ok] readerOK(r)
+//@   ensures[same-input] inputLen(r) == old(inputLen(r))
+//@   ensures[forward] consumed(r) >= old(consumed(r))
 //@   sweep
-//@   alloc-bound 64*remaining(r) + 4096
+//@   alloc-bound 256*remaining(r) + 4096
+//@   loop 0 (result []wasm.ElementSegment, i uint32)
+//@     invariant len(result) == int(i) && readerOK(r) && inputLen(r) == old[int](inputLen(r)) && consumed(r) >= old[int](consumed(r))
 
 //@ func decodeCodeSection(r *bytes.Reader) ([]wasm.Code, error)
 //@   requires readerOK(r)
+//@   ensures[reader-ok] readerOK(r)
+//@   ensures[same-input] inputLen(r) == old(inputLen(r))
+//@   ensures[forward] consumed(r) >= old(consumed(r))
 //@   sweep
-//@   alloc-bound 64*remaining(r) + 4096
+//@   alloc-bound 256*remaining(r) + 4096
+//@   loop 0 (result []wasm.Code, i uint32)
+//@     invariant len(result) == int(i) && readerOK(r) && inputLen(r) == old[int](inputLen(r)) && consumed(r) >= old[int](consumed(r))
 
 //@ func decodeDataSection(r *bytes.Reader, enabledFeatures api.CoreFeatures) ([]wasm.DataSegment, error)
 //@   requires readerOK(r)
+//@   ensures[reader-ok] readerOK(r)
+//@   ensures[same-input] inputLen(r) == old(inputLen(r))
+//@   ensures[forward] consumed(r) >= old(consumed(r))
 //@   sweep
-//@   alloc-bound 64*remaining(r) + 4096
+//@   alloc-bound 256*remaining(r) + 4096
+//@   loop 0 (result []wasm.DataSegment, i uint32)
+//@     invariant len(result) == int(i) && readerOK(r) && inputLen(r) == old[int](inputLen(r)) && consumed(r) >= old[int](consumed(r))
 
 //@ func decodeDataCountSection(r *bytes.Reader) (count *uint32, err error)
 //@   requires readerOK(r)
+//@   ensures[reader-ok] readerOK(r)
+//@   ensures[same-input] inputLen(r) == old(inputLen(r))
+//@   ensures[forward] consumed(r) >= old(consumed(r))
 //@   sweep
-//@   alloc-bound 64*remaining(r) + 4096
+//@   alloc-bound 256*remaining(r) + 4096
 
 //@ func decodeTable(r *bytes.Reader, enabledFeatures api.CoreFeatures, ret *wasm.Table) (err error)
 //@   requires readerOK(r)
+//@   ensures[reader-ok] readerOK(r)
+//@   ensures[same-input] inputLen(r) == old(inputLen(r))
+//@   ensures[forward] consumed(r) >= old(consumed(r))
 //@   sweep
-//@   alloc-bound 64*remaining(r) + 4096
+//@   alloc-bound 256*remaining(r) + 4096
 
 //@ func decodeValueTypes(r *bytes.Reader, num uint32) ([]wasm.ValueType, error)
 //@   requires readerOK(r)
+//@   ensures[reader-ok] readerOK(r)
+//@   ensures[same-input] inputLen(r) == old(inputLen(r))
+//@   ensures[forward] consumed(r) >= old(consumed(r))
+//@   ensures[exact] r1 == nil ==> len(r0) == int(num)
 //@   sweep
-//@   alloc-bound 64*remaining(r) + 4096
+//@   alloc-bound 256*remaining(r) + 4096
 
 //@ func decodeUTF8(r *bytes.Reader, contextFormat string, contextArgs ...interface{}) (string, uint32, error)
 //@   requires readerOK(r)
+//@   ensures[reader-ok] readerOK(r)
+//@   ensures[same-input] inputLen(r) == old(inputLen(r))
+//@   ensures[forward] consumed(r) >= old(consumed(r))
 //@   sweep
-//@   alloc-bound 64*remaining(r) + 4096
+//@   alloc-bound 256*remaining(r) + 4096
